@@ -31,6 +31,8 @@ using Z = boost::multiprecision::number<
 struct OpCounts {
   std::atomic<uint64_t> from_int{0}, add{0}, sub{0}, mul{0}, div{0}, neg{0},
       cmp{0}, copy{0};
+  // reads of a default-constructed (indeterminate) value; always counted
+  std::atomic<uint64_t> poison{0};
 };
 inline OpCounts &counts() {
   static OpCounts c;
@@ -45,16 +47,29 @@ inline OpCounts &counts() {
   ::vq::counts().f.fetch_add(1, std::memory_order_relaxed)
 #endif
 
+// A default-constructed Q is *indeterminate*, like a default-initialised
+// built-in number: the documented requirements ask for default
+// constructibility, not for T() == 0. It holds an absurd sentinel and every
+// read of it (arithmetic, comparison, harness access) is counted, so that
+// code relying on "value-initialised means zero" is noticed.
 class Q final {
  private:
   R _v;
+  bool _poison = false;
   struct Raw {};
   Q(Raw, R v) : _v(std::move(v)) {}
+  static void touched(const Q &a) {
+    if (a._poison) counts().poison.fetch_add(1, std::memory_order_relaxed);
+  }
+  static void touched(const Q &a, const Q &b) {
+    touched(a);
+    touched(b);
+  }
   friend const R &peek(const Q &q);
   friend Q make(R v);
 
  public:
-  Q() : _v(0) {}
+  Q() : _v(R(7777777) / R(3)), _poison(true) {}
   // "Construction from an integer through static_cast": any built-in integer
   // type, explicit only.
   template <typename I, std::enable_if_t<std::is_integral_v<I>, bool> = true>
@@ -75,71 +90,89 @@ class Q final {
 
   Q &operator+=(const Q &o) {
     VQ_COUNT(add);
+    touched(*this, o);
     _v += o._v;
     return *this;
   }
   Q &operator-=(const Q &o) {
     VQ_COUNT(sub);
+    touched(*this, o);
     _v -= o._v;
     return *this;
   }
   Q &operator*=(const Q &o) {
     VQ_COUNT(mul);
+    touched(*this, o);
     _v *= o._v;
     return *this;
   }
   Q &operator/=(const Q &o) {
     VQ_COUNT(div);
+    touched(*this, o);
     _v /= o._v;
     return *this;
   }
   friend Q operator+(const Q &a, const Q &b) {
     VQ_COUNT(add);
+    touched(a, b);
     return Q(Raw{}, a._v + b._v);
   }
   friend Q operator-(const Q &a, const Q &b) {
     VQ_COUNT(sub);
+    touched(a, b);
     return Q(Raw{}, a._v - b._v);
   }
   friend Q operator*(const Q &a, const Q &b) {
     VQ_COUNT(mul);
+    touched(a, b);
     return Q(Raw{}, a._v * b._v);
   }
   friend Q operator/(const Q &a, const Q &b) {
     VQ_COUNT(div);
+    touched(a, b);
     return Q(Raw{}, a._v / b._v);
   }
   Q operator-() const {
     VQ_COUNT(neg);
+    touched(*this);
     return Q(Raw{}, -_v);
   }
   friend bool operator==(const Q &a, const Q &b) {
     VQ_COUNT(cmp);
+    touched(a, b);
     return a._v == b._v;
   }
   friend bool operator!=(const Q &a, const Q &b) {
     VQ_COUNT(cmp);
+    touched(a, b);
     return a._v != b._v;
   }
   friend bool operator<(const Q &a, const Q &b) {
     VQ_COUNT(cmp);
+    touched(a, b);
     return a._v < b._v;
   }
   friend bool operator<=(const Q &a, const Q &b) {
     VQ_COUNT(cmp);
+    touched(a, b);
     return a._v <= b._v;
   }
   friend bool operator>(const Q &a, const Q &b) {
     VQ_COUNT(cmp);
+    touched(a, b);
     return a._v > b._v;
   }
   friend bool operator>=(const Q &a, const Q &b) {
     VQ_COUNT(cmp);
+    touched(a, b);
     return a._v >= b._v;
   }
 };
 
-inline const R &peek(const Q &q) { return q._v; }
+inline const R &peek(const Q &q) {
+  Q::touched(q);
+  return q._v;
+}
 inline Q make(R v) { return Q(Q::Raw{}, std::move(v)); }
 
 }  // namespace vq
